@@ -859,4 +859,198 @@ theorem update_refines_reference (ts : TableSchema) (m : Model) (change : OvsRow
   exact updFold_refines ts change _ (by rw [List.mem_eraseDups]; exact hu) (false, m, []) (chg, new, delta) m.row
     (fun _ => rfl) hval hrt h
 
+/-- the value of column `c` after `getRowData` visited it, `prev` being the value before -/
+def colAfter (ts : TableSchema) (given : OvsRow) (prev : Option Value) (c : String) : Option Value :=
+  match get? ts.cols c, get? given c with
+  | some cs, some o => (match ovsToNative cs o with | .ok v => some v | .error _ => prev)
+  | _, _ => prev
+
+theorem colAfter_idem (ts : TableSchema) (given : OvsRow) (prev : Option Value) (c : String) :
+    colAfter ts given (colAfter ts given prev c) c = colAfter ts given prev c := by
+  unfold colAfter
+  cases get? ts.cols c <;> cases get? given c <;> simp only
+  rename_i cs o
+  cases ovsToNative cs o <;> simp only
+
+theorem getRowDataStep_spec (ts : TableSchema) (given : OvsRow) (m m1 : Model) (a : String) (ha : a ≠ "_uuid")
+    (h1 : getRowDataStep ts given m a = .ok m1) :
+    (∀ k, get? m1.row k = if k = a then colAfter ts given (get? m.row a) a else get? m.row k) ∧ m1.uuid = m.uuid := by
+  unfold getRowDataStep at h1
+  unfold colAfter
+  cases hcs : get? ts.cols a with
+  | none =>
+    simp only [hcs] at h1; cases h1
+    exact ⟨fun k => by by_cases hk : k = a <;> simp [hk], rfl⟩
+  | some cs =>
+    cases ho : get? given a with
+    | none =>
+      simp only [hcs, ho] at h1; cases h1
+      exact ⟨fun k => by by_cases hk : k = a <;> simp [hk], rfl⟩
+    | some o =>
+      simp only [hcs, ho] at h1
+      cases hv : ovsToNative cs o with
+      | error e => simp [hv] at h1
+      | ok v =>
+        simp only [hv, Except.ok.injEq] at h1
+        subst h1
+        constructor
+        · intro k
+          simp only [Model.setField, ha, if_false, get?_insert, hv]
+        · simp [Model.setField, ha]
+
+theorem getRowData_fold (ts : TableSchema) (given : OvsRow) (l : List String) (hl : "_uuid" ∉ l)
+    (m m' : Model) (h : l.foldlM (getRowDataStep ts given) m = .ok m') (c : String) :
+    get? m'.row c = (if c ∈ l then colAfter ts given (get? m.row c) c else get? m.row c) ∧ m'.uuid = m.uuid := by
+  induction l generalizing m with
+  | nil => simp [pure, Except.pure] at h; subst h; simp
+  | cons a t ih =>
+    simp only [List.foldlM_cons, bind, Except.bind] at h
+    split at h
+    · cases h
+    · rename_i m1 h1
+      have ha : a ≠ "_uuid" := fun e => hl (by simp [e])
+      obtain ⟨ih1, ih2⟩ := ih (fun e => hl (List.mem_cons_of_mem _ e)) m1 h
+      obtain ⟨hs1, hs2⟩ := getRowDataStep_spec ts given m m1 a ha h1
+      refine ⟨?_, ih2.trans hs2⟩
+      rw [ih1, hs1 c]
+      by_cases hca : c = a
+      · subst hca
+        by_cases hct : c ∈ t
+        · simp [hct, colAfter_idem]
+        · simp [hct]
+      · by_cases hct : c ∈ t <;> simp [hct, hca]
+
+
+/-- a successful `getRowData` met no conversion error -/
+theorem getRowData_no_error (ts : TableSchema) (given : OvsRow) (l : List String)
+    (m m' : Model) (h : l.foldlM (getRowDataStep ts given) m = .ok m') :
+    ∀ a ∈ l, ∀ cs o e, get? ts.cols a = some cs → get? given a = some o → ovsToNative cs o ≠ .error e := by
+  induction l generalizing m with
+  | nil => intro a ha; cases ha
+  | cons b t ih =>
+    simp only [List.foldlM_cons, bind, Except.bind] at h
+    split at h
+    · cases h
+    · rename_i m1 h1
+      intro a ha cs o e hcs ho hv
+      rcases List.mem_cons.mp ha with rfl | ha
+      · unfold getRowDataStep at h1
+        simp [hcs, ho, hv] at h1
+      · exact ih m1 h a ha cs o e hcs ho hv
+
+/-- the reference's value of one column of an inserted row -/
+def insCol (ts : TableSchema) (given : OvsRow) (c : String) : Option Value :=
+  match get? ts.cols c with
+  | none => none
+  | some cs =>
+    match get? given c with
+    | some o => (ovsToNative cs o).toOption
+    | none => some (zeroValue cs)
+
+theorem insertRow_eq (ts : TableSchema) (given : OvsRow) :
+    Rfc.insertRow ts given = (keys ts.cols).eraseDups.mapM (fun c => (insCol ts given c).map (fun v => (c, v))) := by
+  unfold Rfc.insertRow
+  congr 1
+  funext c
+  unfold insCol
+  cases get? ts.cols c <;> simp only [bind, Option.bind, Option.map]
+  rename_i cs
+  cases get? given c <;> simp only [pure]
+  rename_i o
+  cases (ovsToNative cs o).toOption <;> rfl
+
+theorem mapM_pairs_get {ν : Type} (g : String → Option ν) (l : List String) (r : AMap String ν)
+    (h : l.mapM (fun c => (g c).map (fun v => (c, v))) = some r) (c : String) :
+    get? r c = if c ∈ l then g c else none := by
+  induction l generalizing r with
+  | nil => simp at h; subst h; simp
+  | cons a t ih =>
+    rw [List.mapM_cons] at h
+    cases hga : g a with
+    | none => simp [hga] at h
+    | some v =>
+      cases ht : t.mapM (fun c => (g c).map (fun v => (c, v))) with
+      | none => simp [hga, ht] at h
+      | some r' =>
+        simp [hga, ht] at h
+        subst h
+        rw [get?_cons]
+        by_cases hca : a = c
+        · subst hca; simp [hga]
+        · have : ¬ c = a := fun e => hca e.symm
+          simp [hca, this, ih r' ht]
+
+theorem mapM_some_of_forall {α β : Type} (g : α → Option β) (l : List α) (h : ∀ a ∈ l, (g a).isSome) :
+    ∃ r, l.mapM g = some r := by
+  induction l with
+  | nil => exact ⟨[], rfl⟩
+  | cons a t ih =>
+    obtain ⟨r, hr⟩ := ih (fun x hx => h x (List.mem_cons_of_mem _ hx))
+    have ha := h a List.mem_cons_self
+    cases hga : g a with
+    | none => simp [hga] at ha
+    | some b => exact ⟨b :: r, by simp [List.mapM_cons, hga, hr]⟩
+
+/-- **C03 (17)** an `insert` stores the given columns and the default of every other
+    column, as the reference says: whenever the code builds the new row, the reference
+    builds it too and the two agree column by column. -/
+theorem insert_refines_reference (ts : TableSchema) (given : OvsRow) (m : Model)
+    (hu : "_uuid" ∉ keys ts.cols)
+    (h : getRowData ts given (newModel ts) = .ok m) :
+    ∃ r', Rfc.insertRow ts given = some r' ∧ ∀ c, get? m.row c = get? r' c := by
+  unfold getRowData dedupKeys at h
+  have hl : "_uuid" ∉ (keys ts.cols).eraseDups := by rw [List.mem_eraseDups]; exact hu
+  have hne := getRowData_no_error ts given _ _ _ h
+  rw [insertRow_eq]
+  obtain ⟨r', hr'⟩ := mapM_some_of_forall (fun c => (insCol ts given c).map (fun v => (c, v))) (keys ts.cols).eraseDups (by
+    intro c hc
+    rw [List.mem_eraseDups] at hc
+    have hs := get?_isSome_of_mem_keys hc
+    cases hcs : get? ts.cols c with
+    | none => simp [hcs] at hs
+    | some cs =>
+      unfold insCol
+      simp only [hcs, Option.isSome_map]
+      cases ho : get? given c with
+      | none => simp
+      | some o =>
+        cases hv : ovsToNative cs o with
+        | ok v => simp [Except.toOption, hv]
+        | error e => exact absurd hv (hne c (by rw [List.mem_eraseDups]; exact hc) cs o e hcs ho))
+  refine ⟨r', hr', ?_⟩
+  intro c
+  rw [mapM_pairs_get (insCol ts given) _ r' hr' c, (getRowData_fold ts given _ hl _ _ h c).1]
+  have hz : get? (newModel ts).row c = (get? ts.cols c).map zeroValue := by
+    unfold newModel
+    simp only
+    induction ts.cols with
+    | nil => rfl
+    | cons p t ih =>
+      obtain ⟨pk, pv⟩ := p
+      simp only [List.map_cons, get?_cons]
+      by_cases hk : pk = c
+      · simp [hk]
+      · simp [hk, ih]
+  by_cases hc : c ∈ (keys ts.cols).eraseDups
+  · simp only [hc, if_true]
+    rw [List.mem_eraseDups] at hc
+    have hs := get?_isSome_of_mem_keys hc
+    cases hcs : get? ts.cols c with
+    | none => simp [hcs] at hs
+    | some cs =>
+      unfold colAfter insCol
+      simp only [hcs, hz, Option.map]
+      cases ho : get? given c with
+      | none => simp
+      | some o =>
+        cases hv : ovsToNative cs o with
+        | ok v => simp [Except.toOption, hv]
+        | error e => exact absurd hv (hne c (by rw [List.mem_eraseDups]; exact hc) cs o e hcs ho)
+  · simp only [hc, if_false, hz]
+    have : get? ts.cols c = none := by
+      cases hcs : get? ts.cols c with
+      | none => rfl
+      | some cs => exact absurd ((List.mem_eraseDups).mpr (mem_keys_of_get? hcs)) hc
+    simp [this]
+
 end Ovsdb.C03
